@@ -298,6 +298,9 @@ class TGen:
                 vals = [rng.choice(FLOATS) if k == "f" else rng.randint(0, 5) for _ in range(n)]
             fk = rng.randint(0, max(0, n - 1)) if (self.cfg.get("faults") and rng.random() < 0.25) else None
             return ("setcol", tid, col, k, tuple(vals), rng.choice(["item", "attr"]), fk)
+        if kind == "labelcol":
+            self.newcol += 1
+            return ("labelcol", tid, "lab%d" % self.newcol)
         if kind == "delcol":
             return ("delcol", tid, rng.choice(m.cols), rng.choice(["del", "pop"]))
         if kind == "reindex":
@@ -368,6 +371,13 @@ class TGen:
                     m.scalars.pop(col, None)
                     self.kinds[tid][col] = k
                 m.data[col] = list(vals)
+            elif kind == "labelcol":
+                _, tid, col = op
+                m = M[tid]
+                if col not in m.cols and m.n() > 0:
+                    m.cols.append(col)
+                    m.data[col] = list(m.unique_labels())
+                    self.kinds[tid][col] = "s"
             elif kind == "delcol":
                 _, tid, col, how = op
                 m = M[tid]
